@@ -45,7 +45,7 @@ Qed.
 Variable Hp : prime p.
 Variable w : var -> Z.
 Hypothesis W0 : w 0 = 1.
-Theorem C17_output_is_tied_to_its_wire : forall (s : @Gadgets.gst p) x u s' cs, guard s = None ->
+Theorem C17_output_is_tied_to_its_wire : forall (s : @Gadgets.gst p) x u s' cs, AdvGadgets.Gok w s ->
   run (lcval x) s = (inl u, s', cs) -> Forall (holds (p:=p) w) (cons_of cs) -> feq p (w (npub s + 1)) (AdvGadgets.ew w x).
 Proof. intros s x u s1 cs G R H. eapply lcval_forced; eauto. Qed.
 End C17.
